@@ -139,6 +139,55 @@ def h_dump_two_regions(g):
     check_records(g, recs, expected, containment_exclude=ex)
 
 
+def h_extended_written_for_every_chromosome(g):
+    """the real construct_models_in_parallel for a chromosome of an annotated run in which NO novel model was built: the extended
+    annotation of that chromosome is still written from the reference models (otherwise its genes vanish from the merged file)"""
+    import os
+    import shutil
+    import src.dataset_processor as dp
+    import src.serialization as ser
+    from props import c10, c17, flblock
+    d = os.path.join(c10.scratch(), "c03ext")
+    shutil.rmtree(d, ignore_errors=True)
+    os.makedirs(d)
+    dumps = []
+
+    class Printer:
+        def __init__(self, out_dir, prefix, exon_id_storage, gtf_suffix=".transcript_models.gtf", **kw):
+            self.suffix = gtf_suffix
+
+        def dump(self, gene_info, models):
+            dumps.append((self.suffix, list(models)))
+
+        def __getattr__(self, name):
+            return lambda *a, **k: None
+    check_canonical = bool(g.bool("check_canonical"))
+    saved = (dp.Fasta, dp.ReadAssignmentAggregator, dp.ReadAssignmentLoader, dp.GFFPrinter, dp.gffutils, dp.create_extended_storage, dp.IOSupport)
+    dp.Fasta = lambda *a, **k: {"chr1": "ACGT" * 50}
+    dp.ReadAssignmentAggregator = lambda *a, **k: c10.NoOp(read_stat_counter=dp.EnumStats(), global_counter=c10.NoOp(), transcript_model_global_counter=c10.NoOp(),
+                                                           global_printer=c10.NoOp())
+    dp.ReadAssignmentLoader = c10.FakeLoader
+    dp.GFFPrinter = Printer
+    dp.gffutils = Obj(FeatureDB=lambda path: c17.FakeDB())
+    dp.create_extended_storage = lambda db, chr_id, rec, novel: (["REFERENCE_MODELS_OF_" + chr_id] + list(novel), Obj(chr_id=chr_id))
+    dp.IOSupport = lambda args: c10.NoOp()
+    old = flblock.get_reported()
+    try:
+        args = Obj(no_model_construction=False, reference="ref.fa", fai_file_name=None, resume=False, genedb="annotation.db", check_canonical=check_canonical,
+                   sqanti_output=False)
+        dump = os.path.join(d, "smp.save")
+        with open(dump + "_multimappers_chr1", "wb") as fh:
+            ser.write_int(ser.TERMINATION_INT, fh)
+        sample = Obj(out_dir=d, prefix="smp", out_t2t_tsv=os.path.join(d, "t2t.tsv"))
+        call(g, dp.construct_models_in_parallel, sample, "chr1", dump, args, ["NA"])
+    finally:
+        dp.Fasta, dp.ReadAssignmentAggregator, dp.ReadAssignmentLoader, dp.GFFPrinter, dp.gffutils, dp.create_extended_storage, dp.IOSupport = saved
+        flblock.set_reported(old)
+    ext = [m for sfx, m in dumps if sfx == ".extended_annotation.gtf"]
+    g.check(len(ext) == 1 and ext[0] == ["REFERENCE_MODELS_OF_chr1"],
+            "the extended annotation of a chromosome without novel models is written from its reference models", detail={"dumps": str(dumps)[:200]})
+
+
 def h_reference_verbatim(locus):
     def fn(g):
         shims.CURRENT["g"] = g if g.symbolic else None
@@ -193,9 +242,11 @@ def h_joiner(n_novel):
     reference gene: after joining, the transcripts attributed to one gene share its strand"""
     def fn(g):
         ref_exons = [(1000, 1200), (2000, 2150), (2800, 3000)]
-        gi = Obj(gene_strands={"G1": "+"}, gene_id_map={"REF1": "G1"}, all_isoforms_introns={"REF1": common.junctions_from_blocks(ref_exons)},
-                 get_gene_regions=lambda: {"G1": (1000, 3000)})
-        models = [TranscriptModel("chr1", "+", "REF1", "G1", list(ref_exons), TranscriptModelType.known)]
+        # reference gene ids as they occur in annotations: some sort before "novel_gene_...", some after it
+        G1 = ["G1", "zfp1"][g.choice("reference_gene_id", 2)]
+        gi = Obj(gene_strands={G1: "+"}, gene_id_map={"REF1": G1}, all_isoforms_introns={"REF1": common.junctions_from_blocks(ref_exons)},
+                 get_gene_regions=lambda: {G1: (1000, 3000)})
+        models = [TranscriptModel("chr1", "+", "REF1", G1, list(ref_exons), TranscriptModelType.known)]
         for i in range(n_novel):
             strand = "+" if g.bool("novel%d_plus" % i) else "-"
             s_ = g.int("novel%d_start" % i, 500, 3400)
@@ -219,9 +270,10 @@ def h_joiner(n_novel):
         for gid, ms in by_gene.items():
             g.check(len({m.strand for m in ms}) == 1, "all transcripts attributed to one gene lie on one strand",
                     detail={"gene": gid, "members": [(m.transcript_id, m.strand) for m in ms]})
-            if gid == "G1":
+            if gid == G1:
                 g.check(all(m.strand == "+" for m in ms), "transcripts joined to a reference gene lie on the reference gene's strand")
-        g.check(any(m.transcript_id == "REF1" and m.gene_id == "G1" for m in models), "a reference transcript keeps its reference gene")
+        g.check(any(m.transcript_id == "REF1" and m.gene_id == G1 for m in models), "a reference transcript keeps its reference gene",
+                detail={"reference_gene": G1, "genes_after_joining": sorted({m.gene_id for m in models})})
     return fn
 
 
@@ -253,6 +305,8 @@ def instances(tier, seed):
                         ["src.graph_based_model_construction:GraphBasedModelConstructor.__init__",
                          "src.graph_based_model_construction:GraphBasedModelConstructor.construct_fl_isoforms"],
                         "the same locus handled by two constructors of one chromosome run, symbolic read count", weight=20))
+    out.append(Instance("extended_annotation_without_novel_models", h_extended_written_for_every_chromosome,
+                        ["src.dataset_processor:construct_models_in_parallel"], "one chromosome run with annotation and no novel model (collaborators faked)", weight=5))
     out.append(Instance("dump_two_regions", h_dump_two_regions, [T + "GFFPrinter.dump"],
                         "one gene, two dump calls (two regions of a split locus) with one mono-exonic model each, symbolic coordinates", weight=20))
     for locus in (["skip", "antisense", "alt_ends"] if q else sorted(readfam.LOCI)):
